@@ -53,8 +53,9 @@ Theorems ==
   /\ Done =>
        /\ Result = Split(inp)
           \* quoting every word is a faithful rendering (so the property is satisfiable) ...
-       /\ Faithful(Quote(inp), << inp >>)
-       /\ Faithful(RenderQuoted(<< inp, Reverse(inp), << >> >>), << inp, Reverse(inp), << >> >>)
+       /\ (Mode = "strings") => Faithful(Quote(inp), << inp >>)
+       /\ (Mode = "strings") =>
+             Faithful(RenderQuoted(<< inp, Reverse(inp), << >> >>), << inp, Reverse(inp), << >> >>)
           \* ... without quote characters a literal line is split exactly at its blanks
        /\ (Mode = "strings" /\ Result.status \in {"ok", "unspec"}
              /\ \A k \in 1..Len(inp) : inp[k] \notin {SQ, DQ, BS}) =>
